@@ -239,10 +239,16 @@ def body_content_range(I, X, ops=("set", "unset")):
         elif op == "set-length-none":
             I.call(cr.set, (a, b, None))
             exp = pconcat("bytes ", pstr(a), "-", pstr(b - 1), "/*")
+        elif op == "set-unsatisfied":
+            Z = X.int(f"Z{j}", 0, 99)
+            I.call(cr.set, (None, None, Z))
+            exp = pconcat("bytes */", pstr(Z))
         hdr = I.call(resp.headers.get, ("Content-Range",))
         ok = pand(ok, (hdr is None) if exp is None else (hdr is not None and peq(hdr, exp)))
         fresh = I.getattr(resp, "content_range")
-        if exp is not None:
+        if exp is not None and op == "set-unsatisfied":
+            ok = pand(ok, fresh.start is None, fresh.stop is None, fresh.length is not None and peq(fresh.length, Z))
+        elif exp is not None:
             ok = pand(ok, peq(fresh.start, a), peq(fresh.stop, b))
     return ok, {"header": hdr}
 
@@ -285,7 +291,7 @@ def obligations(tier, seed):
         for ops in itertools.product(WA_OPS, repeat=k):
             out.append({"name": f"www_authenticate[{start},{'+'.join(ops)}]", "body": "body_www_authenticate", "params": {"ops": list(ops), "start": start},
                         "opts": {"budget_s": 600, "ctx": ctx}, "witness": ops[:2] == ("set-param", "set-type") and start == "params"})
-    for ops in itertools.product(["set", "unset", "set-length-none"], repeat=k):
+    for ops in itertools.product(["set", "unset", "set-length-none", "set-unsatisfied"], repeat=k):
         out.append({"name": f"content_range[{'+'.join(ops)}]", "body": "body_content_range", "params": {"ops": list(ops)},
                     "opts": {"budget_s": 600, "ctx": ctx}, "witness": ops[:2] == ("set", "unset")})
     for prop in ("content_length", "age", "access_control_max_age"):
